@@ -226,6 +226,24 @@ func runC17(c *Ctx) {
 				if _, fresh := fa.X.(*ssa.Alloc); fresh {
 					return // initialising a freshly allocated value
 				}
+				// seeding an accumulator that is known to be empty with a literal is not a removal
+				if sl, isLit := st.Val.(*ssa.Slice); isLit {
+					if _, fromArr := sl.X.(*ssa.Alloc); fromArr {
+						emptyEdges := LenZeroEdges(fn, func(v ssa.Value) bool {
+							return DerivesLocal(v, func(x ssa.Value) bool {
+								f2, ok := x.(*ssa.FieldAddr)
+								if !ok {
+									return false
+								}
+								o2, ff := FieldOf(f2.X.Type(), f2.Field)
+								return ff != nil && shortOwner(o2)+"."+ff.Name() == k
+							})
+						})
+						if ok, _ := MustPassEdges(fn, st, emptyEdges); ok && len(emptyEdges) > 0 {
+							return
+						}
+					}
+				}
 				shrunk, shrunkPos = fn.String()+" stores a non-append value into "+k, st.Pos()
 			})
 		}
@@ -259,6 +277,26 @@ func runC17(c *Ctx) {
 				emits = append(emits, st)
 			}
 		})
+		// … or the call of a helper of the package that builds it
+		for _, ci := range Calls(lint, false) {
+			callee := ci.Common().StaticCallee()
+			if callee == nil || FuncPkgPath(callee) != FuncPkgPath(lint) || callee == lint {
+				continue
+			}
+			builds := false
+			for _, f := range DeepFuncs(callee, 1) {
+				Instrs(f, false, func(in ssa.Instruction) {
+					if st, ok := in.(*ssa.Store); ok && IsFieldOf("runner.Diagnostic", "Category")(st.Addr) {
+						if s, ok := constStringVal(st.Val); ok && s == "U1000" {
+							builds = true
+						}
+					}
+				})
+			}
+			if builds {
+				emits = append(emits, ci)
+			}
+		}
 		if len(emits) == 0 {
 			c.Undecided("(*linter).lint no longer synthesises U1000 problems")
 		}
@@ -291,6 +329,13 @@ func runC17(c *Ctx) {
 					l, ok := e.Tuple.(*ssa.Lookup)
 					return ok && isUsedMap(l.X) && AddrKeyOfLoad(l.Index) == AddrKeyOfLoad(mu.Key), true
 				}))
+				// storing false where the entry reads false (absent or false) cannot overwrite a true either
+				for e := range CondEdges(lint, func(cond ssa.Value) (bool, bool) {
+					l, ok := cond.(*ssa.Lookup)
+					return ok && !l.CommaOk && isUsedMap(l.X) && AddrKeyOfLoad(l.Index) == AddrKeyOfLoad(mu.Key), false
+				}) {
+					absent[e] = true
+				}
 				ok2, p := MustPassEdges(lint, mu, absent)
 				c.Check(FuncKey(lint)+"::used-never-overwritten-by-unused", mu.Pos(), ok2 && len(absent) > 0, "used[key] = false may only initialise an absent key; overwriting would let a later variant that does not use the object hide an earlier variant that does; path: %s", PathString(lint, p))
 			} else if isBoolConst(mu.Value, true) {
